@@ -250,12 +250,14 @@ class PythonExpr(TalesExpr):
         # Some errors are only found when the tree is compiled (a
         # repeated keyword argument, ``yield`` outside a function).
         compile(tree, '<string>', 'eval')
-        # The variables of a template are not Python variables: an
-        # expression cannot bind one.
+        # An assignment expression binds a template variable: the names
+        # of the compiler are not available for that.
         for node in ast.walk(tree):
             if isinstance(node, ast.NamedExpr):
-                raise SyntaxError(
-                    "assignment expressions are not supported")
+                name = node.target.id
+                if name in ("econtext", "rcontext") or name.startswith("__"):
+                    raise SyntaxError(
+                        "name disallowed by compiler: %s" % name)
         return tree.body
 
     def translate(self, expression, target):
